@@ -87,6 +87,22 @@ P = {
          "TLC-exhaustive over all trees <= 4/5 derived nodes x realloc capacities; G binding on real loggers in history order and with "
          "concurrent sibling derivation, attribute sizes chosen to leave spare capacity; second oracle With(A);call(B) = call(A++B)",
          "timestamps masked; addSource off", "5/C03"),
+ "C06": ('spec/tasklane/TaskLane.tla (+TaskLaneMC, MC_*.cfg, MUT_*.cfg), spec/tasklane/TaskLaneCases.tla',
+         'TLA+ model of the tasklane protocol with explicit Go channel/select semantics (poll-and-park, rendezvous only with a parked peer, close(done) claiming parked goroutines, timer), one action per select/statement; TLC checks all interleavings incl. cancellation at every point, safety invariants and liveness under weak fairness, and rejects spec mutants; traces of the real TaskLane (verif hooks as event sources and as cancellation gates at every protocol point, quiescence by goroutine census) are validated by TLC against the statement layer',
+         'AtMostOnce, NoRejectedRun, StartedOnlyIfPushed as invariants and EveryAcceptedStarts (~>) under fairness in the bounded model (2-3 lanes, Q in {0,1}, 2-3 tasks, cancel anywhere); on the real code: Start counts per task object, PushTask results, and - at stably quiescent states with the context live - every accepted task started',
+         "witnessed schedules only (widened by hook gates, seeded yields, systematic scenario families); bounded model constants as stated", '5/C06'),
+ "C07": ('spec/tasklane/TaskLane.tla (+TaskLaneMC, MC_*.cfg, MUT_*.cfg), spec/tasklane/TaskLaneCases.tla',
+         'TLA+ model of the tasklane protocol with explicit Go channel/select semantics (poll-and-park, rendezvous only with a parked peer, close(done) claiming parked goroutines, timer), one action per select/statement; TLC checks all interleavings incl. cancellation at every point, safety invariants and liveness under weak fairness, and rejects spec mutants; traces of the real TaskLane (verif hooks as event sources and as cancellation gates at every protocol point, quiescence by goroutine census) are validated by TLC against the statement layer',
+         'PostCancelReject, WaitOnlyWhenQuiet as invariants, NothingAfterWait as action property, ProducersReleased / WaitReturns (~>) in the model; on the real code: cancellation fired inside each protocol hook, late pushes to every lane must return the context error, Wait must not return while a task runs and must have returned / left no goroutine at the final quiescent state',
+         "witnessed schedules only (widened by hook gates, seeded yields, systematic scenario families); bounded model constants as stated", '5/C07'),
+ "C08": ('spec/tasklane/TaskLane.tla (+TaskLaneMC, MC_*.cfg, MUT_*.cfg), spec/tasklane/TaskLaneCases.tla',
+         'TLA+ model of the tasklane protocol with explicit Go channel/select semantics (poll-and-park, rendezvous only with a parked peer, close(done) claiming parked goroutines, timer), one action per select/statement; TLC checks all interleavings incl. cancellation at every point, safety invariants and liveness under weak fairness, and rejects spec mutants; traces of the real TaskLane (verif hooks as event sources and as cancellation gates at every protocol point, quiescence by goroutine census) are validated by TLC against the statement layer',
+         'AtMostNRunning, NoIdleWhileWaiting as invariants and no-head-of-line-blocking liveness with a pinned task (rejecting the no-sharing mutant) in the model; on the real code: overlapping task bodies counted, all-busy then release-all-but-one scenarios per lane and push order, pinned-worker scenarios judged at quiescence',
+         "witnessed schedules only (widened by hook gates, seeded yields, systematic scenario families); bounded model constants as stated", '5/C08'),
+ "C14": ('spec/tasklane/TaskLane.tla (+TaskLaneMC, MC_*.cfg, MUT_*.cfg), spec/tasklane/TaskLaneCases.tla',
+         'TLA+ model of the tasklane protocol with explicit Go channel/select semantics (poll-and-park, rendezvous only with a parked peer, close(done) claiming parked goroutines, timer), one action per select/statement; TLC checks all interleavings incl. cancellation at every point, safety invariants and liveness under weak fairness, and rejects spec mutants; traces of the real TaskLane (verif hooks as event sources and as cancellation gates at every protocol point, quiescence by goroutine census) are validated by TLC against the statement layer',
+         'worker survives panics, LastPanicIsOne, StatusBounds for the multi-step Status read, AtRestExact (~ENABLED Internal) in the model (1.4M states); on the real code (-race build): simultaneous typed panics in several rounds with Status pollers, systematic at-rest states (pinned 0 / n-1 / n, every queue size) with exact PendingTask comparison, race detector reports on tasklane.go are violations',
+         "witnessed schedules only (widened by hook gates, seeded yields, systematic scenario families); bounded model constants as stated", '5/C14'),
 }
 
 NOT_BUILT_REASON = "check not built yet in this session (see DESIGN.md section 5 for the planned TLA+ spec and binding)"
